@@ -155,6 +155,22 @@ int main() {
             for (int r = 0; r < n * t * base; r++) dump_lwe(&ks->ks0_raw[r], nout, res);
             for (int r = 0; r < n * t * base; r++) { rp.G(1, alpha); rp.U(nout); }
             delete_LweKeySwitchKey(ks); delete_LweKey(ko); delete_LweKey(ki); delete_LweParams(lout); delete_LweParams(lin);
+        } else if (opc == 17) {   // one process, one key, a sequence of TLWE encryptions with different noise levels and message spaces:
+                                  // k N key(kN) count (alpha_units Msize mu)*  ->  per item: tLweSymDecryptT(tLweSymEncryptT(mu/Msize, alpha)), then the same through
+                                  // a polynomial message (coefficient 0) and tLweSymEncrypt / tLweSymDecrypt
+            int k = v[0], N = v[1]; const ll *w = v + 2;
+            TLweParams *tp = new_TLweParams(N, k, 0., 0.25); TLweKey *tk = new_TLweKey(tp);
+            for (int i = 0; i < k; i++) for (int j = 0; j < N; j++) tk->key[i].coefs[j] = (int32_t) w[(size_t) i * N + j];
+            w += (size_t) k * N; int cnt = (int) w[0]; w++;
+            TLweSample *c = new_TLweSample(tp); TorusPolynomial *m = new_TorusPolynomial(N), *d = new_TorusPolynomial(N);
+            for (int q = 0; q < cnt; q++) { double al = ldexp((double) w[3 * q], -40); int32_t M = (int32_t) w[3 * q + 1], mu = (int32_t) w[3 * q + 2];
+                Torus32 enc = modSwitchToTorus32(mu, M);
+                tLweSymEncryptT(c, enc, al, tk); res.push_back(tLweSymDecryptT(c, tk, M) == enc ? 1 : 0);
+                for (int j = 0; j < N; j++) m->coefsT[j] = modSwitchToTorus32((mu + j) % M, M);
+                tLweSymEncrypt(c, m, al, tk); tLweSymDecrypt(d, c, tk, M); long bad = 0; for (int j = 0; j < N; j++) if (d->coefsT[j] != m->coefsT[j]) bad++;
+                res.push_back(bad); }
+            delete_TorusPolynomial(d); delete_TorusPolynomial(m); delete_TLweSample(c); delete_TLweKey(tk); delete_TLweParams(tp);
+            rp.g = generator;      // (the draw sequence is not replayed here)
         } else if (opc == 16) {   // seeding and use in different threads: n  ->  LWE key generated by a worker thread, then the masks of two encryptions made by two
                                   // further worker threads one after the other (the seed was set by the main thread above); then the same on the main thread
             int n = v[0]; LweParams *lp = new_LweParams(n, alpha, 0.25); LweKey *k = new_LweKey(lp); LweSample *c1 = new_LweSample(lp), *c2 = new_LweSample(lp);
